@@ -392,7 +392,51 @@ def rule_peek_errno(ctx, R="C17/peek-errno"):
     ctx.floor(R, "raw PEEK requests examined", n, 1)
 
 
+def rule_count_from_strategy(ctx, R="C17/count-from-strategy"):
+    """The count MemReader::read reports is the count the strategy that serviced THIS request returned — never a value
+    computed on the side (dst.len(), the requested length): vmem/pread may legitimately come back short at a mapping end."""
+    from engine.summ import return_origins
+    outs = return_origins(ctx.prog, MR + "::read")
+    if outs is None:
+        ctx.violated(R, ("anchor", "read"), None, "anchor missing: %s::read" % MR)
+        return
+    b = ctx.prog.by_short[MR + "::read"][0]
+    n = 0
+    seen = {}
+
+    def leaves(e):
+        while isinstance(e, tuple) and e and e[0] in ("okval", "some", "conv", "try"):
+            e = e[1]
+        if e[0] == "phi":
+            out = []
+            for x in e[1]:
+                out.extend(leaves(x))
+            return out
+        if e[0] == "call" and e[1].split("::")[-1] in ("map_err", "or_else") and e[2]:
+            return leaves(e[2][0])     # maps the error only
+        if e[0] == "call" and e[1] in ctx.prog.by_short and e[1] not in (MR + "::vmem", MR + "::file", MR + "::ptrace"):
+            # a local helper that hands one of its arguments back (e.g. `remember(style, len) -> len`)
+            ro = return_origins(ctx.prog, e[1]) or []
+            ps = {nosite(strip(r)) for r in ro}
+            if len(ps) == 1 and next(iter(ps))[0] == "param" and next(iter(ps))[1] - 1 < len(e[2]):
+                return leaves(e[2][next(iter(ps))[1] - 1])
+        return [e]
+    for e in outs:
+        for l in leaves(e):
+            if l[0] == "agg" and l[2] == "Err":
+                continue
+            n += 1
+            fn = l[1].split("::")[-1] if l[0] == "call" else None
+            seen[fn] = seen.get(fn, 0) + 1
+            ok = l[0] == "call" and l[1] in (MR + "::vmem", MR + "::file", MR + "::ptrace") and l[2][1] == ("param", 2) and root(strip(l[2][2])) == ("param", 3)
+            ctx.check(ok, R, ("returns", "%s#%d" % (fn or l[0], seen[fn])), b.where(l[3][1]) if l[0] == "call" and len(l) > 3 else b.where(0),
+                      "read() reports the count %s(.., src, dst) returned" % fn,
+                      "read() can report a count that is not the one a strategy returned for this request: %s" % show(l)[:100])
+    ctx.floor(R, "success values of MemReader::read", n, 6)
+
+
 def run(ctx):
+    rule_count_from_strategy(ctx)
     rule_peek_errno(ctx)
     rule_no_over_read(ctx)
     rule_args(ctx)
